@@ -152,6 +152,7 @@ class WorkList(object):
         self.rx = rx
         self.lines = []
         self.fam = []        # operand family label per line (evidence only)
+        self.meta = {}       # line number (1-based) -> model path labels (drift comparison only)
 
     def add(self, fam, op, *args):
         # bintMod/bintModi (hence fiBIntRem, fiBIntMod, fiBIntPowerMod) are written in terms of
@@ -187,8 +188,9 @@ class WorkList(object):
                 for ix in {0, max(n - 1, 0), n, n + 1, rnd.randrange(0, n + 2), rnd.choice((6, 7, 31, 32, 61, 62, 63, 64))}:
                     self.add(fam, op, A, ix)
             elif op == "shift":
-                ks = {0, 1, -1, rnd.choice((6, 7, 8, 31, 32, 33, 61, 62, 63, 64)), -rnd.choice((6, 7, 8, 31, 32, 33, 61, 62, 63, 64)),
-                      rnd.randrange(0, 130), -rnd.randrange(0, n + 3), -n, -(n - 1) if n > 1 else -1, 62 - n, 63 - n, 61 - n}
+                ks = {0, rnd.choice((1, -1)), rnd.choice((6, 7, 8, 31, 32, 33, 61, 62, 63, 64)) * rnd.choice((1, -1)),
+                      rnd.randrange(0, 130), -rnd.randrange(0, n + 3), rnd.choice((-n, -(n - 1) if n > 1 else -1)),
+                      rnd.choice((62 - n, 63 - n, 61 - n))}
                 for k in sorted(ks):
                     self.add(fam, op, A, k)
             elif op == "frstring":
@@ -350,6 +352,13 @@ def generate(rx, tier, seed):
             for c in (1, 2, 3, -3, 10):
                 w.add("random", "powermod", hx(a), hx(e), hx(c))
 
+    # low bits (builtin BIntShiftRem; not used by the libraries)
+    for v in [rnd.choice(p2) for _ in range(10 if quick else 100)] + [rnd.choice(im) for _ in range(6 if quick else 60)] + \
+             [rand_value(rnd, 200) for _ in range(10 if quick else 100)] + [0, 1, -1, 255, -255, (1 << 40) + 5, (1 << 86) + 12345]:
+        n = abs(v).bit_length()
+        for k in sorted({1, rnd.choice((5, 16, 30)), rnd.choice((31, 32, 33)), rnd.choice((7, 14, 63, 64, 96)), max(n - 1, 0), n, rnd.randrange(0, n + 8)}):
+            w.add("shiftrem", "shiftrem", hx(v), k)
+
     # a few large ones (slow in TLC: about a second per 4000-bit product)
     nbig = 4 if quick else 40
     for _ in range(nbig):
@@ -362,4 +371,35 @@ def generate(rx, tier, seed):
         w.unary_all("big", a, rnd, ("tostring", "frstring", "length", "neg"))
         w.add("big", "shift", hx(a), -1995)
         w.add("big", "shift", hx(c), 2001)
+    return w
+
+
+def inst_pattern(pat, lg, rnd):
+    """Instantiate a digit-class pattern exported by spec/BigIntImpl.tla at radix 2^lg."""
+    R = 1 << lg
+    v = 0
+    for i, c in enumerate(pat["cls"]):
+        d = {"0": 0, "1": 1, "m": R - 1, "n": R - 2, "h": R // 2, "g": R // 2 - 1}.get(c)
+        if d is None:
+            d = rnd.randrange(2, R - 2)
+            while d in (R // 2, R // 2 - 1):
+                d = rnd.randrange(2, R - 2)
+        v += d * R ** i
+    return -v if pat["neg"] else v
+
+
+def from_patterns(pats, rx, seed, tier):
+    """(B) replay of the per-path operand patterns of the algorithm model at this build's radix
+    (and, for the production build, also at the other radix's digit width)."""
+    rnd = random.Random(seed * 7 + rx)
+    w = WorkList(rx)
+    for p in pats:
+        for lg in ((rx,) if tier == "quick" else (rx, 39 - rx)):
+            a = inst_pattern(p["a"], lg, rnd)
+            b = inst_pattern(p["b"], lg, rnd)
+            if p["op"] == "divide" and b == 0:
+                continue
+            w.add("path", p["op"], hx(a), hx(b))
+            if lg == rx:
+                w.meta[len(w.lines)] = sorted(p["path"])
     return w
